@@ -1,7 +1,7 @@
 import os
 ID = 'C03'
 LEVEL = 'proof'
-CONTRACT_MODULES = ['contracts.calc', 'contracts.regions', 'contracts.catalogs']
+CONTRACT_MODULES = ['contracts.calc', 'contracts.regions', 'contracts.catalogs', 'contracts.quadtree']
 CONE = [
     'csep.utils.calc.bin1d_vec',
     'csep.core.regions.CartesianGrid2D.get_index_of',
@@ -9,6 +9,7 @@ CONE = [
     'csep.core.catalogs.AbstractBaseCatalog.spatial_event_probability',
     'csep.core.catalogs.AbstractBaseCatalog.magnitude_counts',
     'csep.core.catalogs.AbstractBaseCatalog.spatial_magnitude_counts',
+    'csep.core.regions.QuadtreeGrid2D.get_index_of',
 ]
 ORACLE_MODULES = ['rt.oracles_grid']
 BOUNDED = os.path.exists(os.path.join(os.path.dirname(__file__), '..', 'rt', 'bounded_C03.py'))
